@@ -43,6 +43,7 @@ func run(c *vrt.Ctx) {
 		{"window", checkWindows},
 		{"domain", checkDomain},
 		{"dirty", checkDirtyBuffers},
+		{"scaling", checkScaling},
 	}
 	for _, s := range subs {
 		if *flagSub != "" {
